@@ -64,7 +64,8 @@ theorem closed_stable {s s' : State} {a : Action} (hc : s.closed = true) (h : s.
       all_goals (repeat' split at h)
       all_goals (try (simp at h; done))
       all_goals (simp only [Option.map_eq_some_iff] at h; obtain ⟨_, _, rfl⟩ := h
-                 simp [State.setTpt, State.autoTrigger, hc])
+                 simp only [State.setTpt, State.autoTrigger, State.syncSet]
+                 (repeat' split) <;> simp [hc])
     · simp at h
   all_goals (repeat' split at h)
   all_goals (try (simp at h; done))
@@ -96,25 +97,23 @@ theorem close_input_bound {s s' : State} {a : Action} (hc : s.closed = true) (hk
     (h : s.step a = some s') : mu s' ≤ mu s + 1 := by
   cases a with
   | trx i a =>
-    cases a <;> (try (simp [Action.kind] at hk; done)) <;> simp only [State.step] at h <;>
-      (repeat' split at h) <;> simp_all
-  | tpt k a =>
-    cases a <;> (try (simp [Action.kind] at hk; done))
-    simp only [State.step] at h
-    split at h
-    · rename_i t ht
+    cases a with
+    | cancel w =>
+      simp only [State.step] at h
       split at h
-      · simp only [Option.map_eq_some_iff] at h
+      · rename_i t ht
+        simp only [Option.map_eq_some_iff] at h
         obtain ⟨t', ht', rfl⟩ := h
-        have hW : tptW t' = tptW t := by
-          simp only [tptStep] at ht'
-          split at ht'
-          · injection ht' with ht'; subst ht'; simp [tptW, Tpt.rank]
-          · simp at ht'
-        have := sumBy_set tptW s.tpts k t t' ht
-        simp only [mu, State.setTpt]; omega
+        have ht' : trxStep false t (.cancel w) = some t' := ht'
+        have hW := trxStep_W ht'
+        have := sumBy_set trxW s.trxs i t t' ht
+        simp only [mu, State.setTrx]; simp only at hW; omega
       · simp at h
-    · simp at h
+    | mkTrack | assign k =>
+      simp only [State.step] at h
+      (repeat' split at h) <;> simp_all
+    | sndStart | rcvStart | first w | exit w | decoderStop => simp [Action.kind] at hk
+  | tpt k a => cases a <;> simp [Action.kind] at hk
   | closeCall b =>
     cases b
     · simp [State.step, hc] at h; subst h; simp only [mu]; omega
